@@ -404,6 +404,87 @@ theorem pdb_load_one (L : Rd.Pdb.Layout) (ls : List Str) (path : Nat) (fs : FS) 
       ∃ evs, st'.trace = .close :: (evs ++ [.openR]) ∧ LoadEvs evs :=
   reader_load_one _ _ _ _
 
+
+/-! ## Gaussian cube -/
+
+theorem cube_dataLoop_good : ∀ (n : Nat) (ws : List Str), Good (Rd.Cube.dataLoop n ws) := by
+  intro n
+  induction n with
+  | zero => intro ws; unfold Rd.Cube.dataLoop; exact good_pure _
+  | succ n ih =>
+    intro ws
+    cases ws with
+    | cons w ws => unfold Rd.Cube.dataLoop; exact good_bind (good_liftE _) fun _ => ih ws
+    | nil =>
+      unfold Rd.Cube.dataLoop
+      refine good_bind good_next fun line => ?_
+      split
+      · exact good_raise _
+      · exact good_bind (good_liftE _) fun _ => ih _
+
+theorem cube_good : Good Rd.Cube.loadOne := by
+  unfold Rd.Cube.loadOne
+  refine good_bind good_next fun _ => good_bind good_next fun _ =>
+    good_bind good_next fun _ => good_bind (good_liftE _) fun _ =>
+    good_bind good_next fun _ => good_bind (good_liftE _) fun _ =>
+    good_bind good_next fun _ => good_bind (good_liftE _) fun _ =>
+    good_bind good_next fun _ => good_bind (good_liftE _) fun _ =>
+    good_bind (good_liftE _) fun _ => good_bind (good_liftE _) fun _ => good_bind (good_liftE _) fun _ =>
+    good_bind (good_liftE _) fun _ =>
+    good_bind (good_repeatN (good_bind good_next fun _ => good_liftE _) _) fun _ =>
+    good_bind (good_liftE _) fun _ => good_bind (cube_dataLoop_good _ _) fun _ => good_pure _
+
+/-- **cube_terminates**: on any list of lines the cube reader (atom loop bounded by `natom`, data loop by the
+grid size, each iteration consuming a word) returns an object or raises a class of the enumeration, after at
+most `N + 1` reads. -/
+theorem cube_terminates (ls : List Str) :
+    ((∃ o, (Rd.Cube.read ls).res = .ok o) ∨ (∃ c, (Rd.Cube.read ls).res = .error c)) ∧
+    (Rd.Cube.read ls).lineno ≤ ls.length + 1 := by
+  refine ⟨?_, run_lineno_le cube_good.fin ls⟩
+  cases (Rd.Cube.read ls).res with
+  | ok o => exact Or.inl ⟨o, rfl⟩
+  | error c => exact Or.inr ⟨c, rfl⟩
+
+/-- **cube_shapes**: a returned cube result has `atcoords (natom, 3)`, `atnums` and `atcorenums` `(natom,)`,
+cell vectors `(3, 3)`, and passes the constructor. -/
+theorem cube_shapes (ls : List Str) (o : RObj) (h : (Rd.Cube.read ls).res = .ok o) :
+    ∃ n, o.natom = some n ∧ o.FullyConsistent n ∧ ctorE o = none := by
+  unfold Rd.Cube.read run at h
+  rcases hm : Rd.Cube.loadOne ⟨ls, 0⟩ with ⟨r, l'⟩
+  rw [hm] at h
+  simp only at h
+  subst h
+  unfold Rd.Cube.loadOne at hm
+  obtain ⟨_, _, -, hm⟩ := bind_ok hm
+  obtain ⟨_, _, -, hm⟩ := bind_ok hm
+  obtain ⟨_, _, -, hm⟩ := bind_ok hm
+  obtain ⟨natom, _, -, hm⟩ := bind_ok hm
+  obtain ⟨_, _, -, hm⟩ := bind_ok hm
+  obtain ⟨s0, _, -, hm⟩ := bind_ok hm
+  obtain ⟨_, _, -, hm⟩ := bind_ok hm
+  obtain ⟨s1, _, -, hm⟩ := bind_ok hm
+  obtain ⟨_, _, -, hm⟩ := bind_ok hm
+  obtain ⟨s2, _, -, hm⟩ := bind_ok hm
+  obtain ⟨_, _, -, hm⟩ := bind_ok hm
+  obtain ⟨_, _, -, hm⟩ := bind_ok hm
+  obtain ⟨_, _, -, hm⟩ := bind_ok hm
+  obtain ⟨_, _, -, hm⟩ := bind_ok hm
+  obtain ⟨_, _, -, hm⟩ := bind_ok hm
+  obtain ⟨_, _, -, hm⟩ := bind_ok hm
+  obtain ⟨_, _, -, hm⟩ := bind_ok hm
+  obtain ⟨ho, -⟩ := pure_ok hm
+  subst ho
+  refine ⟨natom.toNat, rfl, ⟨⟨?_, ?_, ?_, ?_, ?_, ?_⟩, ?_, ?_⟩, ?_⟩ <;>
+    simp [ctorE, ctorOk, RObj.natom, optShape, shapeMatch, lenOf]
+
+/-- **cube_load_one**: `load_one` on any cube file content returns an object with consistent shapes or raises
+`LoadError`; the file is closed. -/
+theorem cube_load_one (ls : List Str) (path : Nat) (fs : FS) :
+    ∃ st', runLoadOne loadOne (behOf (Rd.Cube.read ls) ls.length) path fs = (apiOutcome (Rd.Cube.read ls), st') ∧
+      IsObjOrLoadError (apiOutcome (Rd.Cube.read ls)) ∧ st'.fs = fs ∧
+      ∃ evs, st'.trace = .close :: (evs ++ [.openR]) ∧ LoadEvs evs :=
+  reader_load_one _ _ _ _
+
 /-! ### non-vacuity (the generated tables, evaluated by the kernel) -/
 
 example : (Rd.Xyz.read Gen.Layouts.tables
